@@ -14,6 +14,7 @@ Three kinds of components of a verification tuple:
 import ZkVerif.Props.C02
 import ZkVerif.Props.C01
 import ZkVerif.Props.C18
+import Mathlib.Data.ZMod.Basic
 
 set_option linter.unusedSectionVars false
 
@@ -144,5 +145,29 @@ theorem token_refused_as_closing_signature (he : IsPairing F e) (m : MerchantCfg
     (hv : psVerify e m.kp.pk σ s.msg = true) :
     m.checkCloseSignature e σ (s.closeMsg close) = false :=
   C18.pay_token_not_closing_sig he m.kp hk hg2 hy hy1 close s hn σ hv
+
+/-! ### the channel id as a scalar -/
+
+/-- `ChannelId::to_scalar` reads the 32 bytes as a 256-bit little-endian integer and reduces it mod `q`
+(`Scalar::from_raw`): two ids are mapped to the same scalar exactly when they are congruent mod `q`.
+(Recorded observation, not a violation of the statement as given: 256-bit ids that differ by `q` or `2q`
+do collide; a channel id is a SHA3 output, so such a pair is a structured near-collision of SHA3.) -/
+theorem cid_scalar_eq_iff (q : Nat) [NeZero q] (a b : Nat) :
+    ((a : ZMod q) = (b : ZMod q)) ↔ a % q = b % q := by
+  rw [ZMod.natCast_eq_natCast_iff']
+
+/-- … in particular flipping a single bit of a channel id (a difference of `2^k`, never a multiple of
+the odd prime `q`) always changes its scalar. -/
+theorem cid_bit_flip_changes_scalar (q : Nat) [NeZero q] (hq : 2 < q) (hp : Nat.Prime q)
+    (a k : Nat) : ((a + 2 ^ k : Nat) : ZMod q) ≠ (a : ZMod q) := by
+  intro h
+  have h2 : ((2 ^ k : Nat) : ZMod q) = 0 := by
+    have e : ((a + 2 ^ k : Nat) : ZMod q) = (a : ZMod q) + ((2 ^ k : Nat) : ZMod q) := by push_cast; ring
+    rw [e] at h
+    exact add_eq_left.mp h
+  rw [ZMod.natCast_eq_zero_iff] at h2
+  have h3 := Nat.Prime.dvd_of_dvd_pow hp h2
+  have : q ≤ 2 := Nat.le_of_dvd (by norm_num) h3
+  omega
 
 end ZkVerif.C06
